@@ -106,3 +106,132 @@ Print Assumptions C04_tag_ids.
 Print Assumptions C04_is_ws_translated.
 Print Assumptions C04_is_digit_translated.
 Print Assumptions C04_is_bare_translated.
+
+(* ==================================================================================================================
+   The SNBT SCANNER (nbt/snbt_scanner.go), TRANSLATED: Gen/Scanner.v is regenerated from the Go source on every run by
+   tools/gotrans/scanner.go (the struct as a record, every state function and method as a Gallina function, Go run-time
+   panics as the explicit flag `crashed`); Model/C04_scan.v runs it the way every caller does (reset, one step per
+   byte, eof) and states bracket balance independently.  The theorems hold for ALL byte strings, no bound. *)
+From GoMC Require Gen.Scanner Model.C04_scan Proofs.C04_scan Proofs.C04_scan_inv Proofs.C04_scan_shape
+  Proofs.C04_scan_sim Proofs.C04_scan_bal Proofs.C04_scan_cls Proofs.C04_scan_ex.
+Import Gen.Scanner Model.C04_scan.
+Local Open Scope Z_scope.
+
+(* (a) no Go run-time panic: neither the index `s.parseState[n-1]` of stateCompoundOrEmpty / stateEndValue nor the slice
+   `s.parseState[:n]` of popParseState is ever out of range - after any prefix of any text, and after eof() *)
+Theorem C04_scan_no_crash : forall text : list Z,
+  crashed (fst (scan_bytes scan_init text)) = false /\ crashed (fst (scan_all text)) = false.
+Proof. exact C04_scan_inv.scan_no_crash. Qed.
+
+(* (a) the depth check of pushParseState as a property of every run: never more than maxNestingDepth+2 frames, and
+   more than maxNestingDepth+1 only in the error state *)
+Theorem C04_scan_depth_bound : forall text : list Z,
+  let s := fst (scan_bytes scan_init text) in
+  sl_len (parseState s) <= nbt_maxNestingDepth + 2 /\
+  (errContext s = false -> sl_len (parseState s) <= nbt_maxNestingDepth + 1).
+Proof. exact C04_scan_inv.scan_depth_bound. Qed.
+
+(* (b) scanError is sticky: once a byte has been answered scanError the scanner does not move any more, every later
+   byte is answered scanError, and so is eof() *)
+Theorem C04_scan_error_sticky : forall (t1 : list Z) (c : Z) (t2 : list Z),
+  let s := fst (scan_bytes scan_init t1) in
+  snd (scan_step s c) = nbt_scanError ->
+  let s1 := fst (scan_step s c) in
+  Forall (fun op => op = nbt_scanError) (snd (scan_bytes s1 t2)) /\
+  fst (scan_bytes s1 t2) = s1 /\
+  snd (scan_eof (fst (scan_bytes s1 t2))) = nbt_scanError.
+Proof. exact C04_scan_shape.scan_error_sticky. Qed.
+
+(* ... hence a text that is accepted never saw scanError *)
+Theorem C04_scan_accept_no_error : forall text : list Z,
+  scan_accepts text = true -> ~ In nbt_scanError (snd (scan_bytes scan_init text)).
+Proof. exact C04_scan_shape.accepts_no_error. Qed.
+
+(* (c) opcode / stack coherence, for every state the loop reaches and every next byte: scanBeginCompound and
+   scanBeginList are `{` and `[` and push exactly their frame; scanEndValue pops exactly the top frame and the byte
+   is the closing bracket of that frame's kind; on every other opcode the stack keeps its frames (the top frame may
+   switch between tag name and tag value) - except the push beyond the depth limit, answered scanError; and every
+   scanError leaves the scanner in stateError with errContext set *)
+Theorem C04_scan_opcode_stack : forall (t : list Z) (c : Z),
+  let s := fst (scan_bytes scan_init t) in
+  C04_scan_shape.step_shape s c (fst (scan_step s c)) (snd (scan_step s c)).
+Proof. exact C04_scan_shape.scan_opcode_stack. Qed.
+
+(* (c) a text the scanner accepts (eof() answers scanEnd) has balanced brackets outside string literals, by the
+   independent reading `balanced` of Model/C04_scan.v *)
+Theorem C04_scan_accept_balanced : forall text : list Z, scan_accepts text = true -> balanced text = true.
+Proof. exact C04_scan_bal.scan_accept_balanced. Qed.
+
+(* (d) the character classes the translated scanner consults are the specification's is_ws / is_bare / is_digit (through
+   C04_is_ws_translated, C04_is_bare_translated, C04_is_digit_translated above): white space is skipped wherever a
+   value, key or closing bracket is awaited; a bare token runs exactly over the bare characters; a digit begins a number *)
+Theorem C04_scan_ws_translated : forall (s : scanner) (c : N),
+  is_ws c = true -> crashed s = false -> C04_scan_cls.ws_state (step s) = true ->
+  scan_step s (Z.of_N c) = (s, nbt_scanSkipSpace).
+Proof. exact C04_scan_cls.ws_skipped. Qed.
+Theorem C04_scan_top_translated : forall (s : scanner) (c : N),
+  crashed s = false -> step s = St_stateEndTop ->
+  scan_step s (Z.of_N c) = if is_ws c then (s, nbt_scanEnd) else (C04_scan.err_of s, nbt_scanEnd).
+Proof. exact C04_scan_cls.top_only_ws. Qed.
+Theorem C04_scan_bare_translated : forall (s : scanner) (c : N),
+  crashed s = false -> step s = St_stateInUnquotedString ->
+  scan_step s (Z.of_N c) = if is_bare c then (s, nbt_scanContinue) else nbt_stateEndValue s (Z.of_N c).
+Proof. exact C04_scan_cls.bare_run. Qed.
+Theorem C04_scan_digit_translated : forall (s : scanner) (c : N),
+  is_digit c = true -> crashed s = false -> step s = St_stateBeginValue ->
+  scan_step s (Z.of_N c) = (set_step s St_stateNum1, nbt_scanBeginLiteral).
+Proof. exact C04_scan_cls.digit_begins_number. Qed.
+
+(* non-vacuity: accepted and refused texts with their opcodes, the one-way direction of the balance theorem, the
+   tightness of the depth bound (vm_compute in Proofs/C04_scan_ex.v) *)
+Example C04_scan_ex_accept :
+  scan_all [123;97;58;91;49;44;34;93;34;93;125] =
+  (mkScanner St_stateEndTop [] false true false, [2;1;6;3;1;4;1;0;0;9;9;10])
+  /\ scan_accepts [123;97;58;91;49;44;34;93;34;93;125] = true
+  /\ balanced [123;97;58;91;49;44;34;93;34;93;125] = true.
+Proof. exact C04_scan_ex.ex_accept. Qed.
+Example C04_scan_ex_reject :
+  scan_accepts [91;125] = false /\ balanced [91;125] = false /\
+  scan_accepts [123;97;58;49;93] = false /\ balanced [123;97;58;49;93] = false /\
+  scan_accepts [123;49;125] = false /\ balanced [123;49;125] = true.
+Proof. exact C04_scan_ex.ex_reject. Qed.
+Example C04_scan_ex_depth :
+  (step C04_scan_ex.deep_state, sl_len (parseState C04_scan_ex.deep_state), errContext C04_scan_ex.deep_state)
+    = (St_stateListOrArray, nbt_maxNestingDepth + 1, false) /\
+  (step (fst C04_scan_ex.deeper), sl_len (parseState (fst C04_scan_ex.deeper)), errContext (fst C04_scan_ex.deeper),
+   snd C04_scan_ex.deeper) = (St_stateError, nbt_maxNestingDepth + 2, true, nbt_scanError).
+Proof. exact C04_scan_ex.ex_depth. Qed.
+
+(* ==================================================================================================================
+   The LITERAL CLASSIFIER (parseLiteral in nbt/snbt_decode.go, the clause for unquoted tokens), TRANSLATED: Gen/Literal.v is
+   regenerated from the Go source on every run (the flag loop statement by statement, the decision tree after it with
+   its strconv calls as (tag, conversion, bit size, width of the Go type, length of the text converted)).
+   On every token the specification classifies - any byte string, any float oracle - the Go code announces the same tag
+   and asks for the matching conversion (ParseInt / ParseFloat with the tag's bit size, or the token itself) of the token
+   without its suffix letter. *)
+From GoMC Require Gen.Literal Proofs.C04_lit.
+Theorem C04_literal_translated : forall pf32 pf64 (tok : list N) (t : tag),
+  C04_lit.fits tok -> classify pf32 pf64 tok = Some t ->
+  Literal.nbt_parseLiteral_unquoted (map Z.of_N tok) = C04_lit.lit_expect t tok.
+Proof. exact C04_lit.lit_agrees. Qed.
+(* -12b, 1.5, 7F, abc: hypotheses satisfiable, and what the answers look like; 1e5 (outside L) is a string for the code *)
+Example C04_literal_ex :
+  classify toy_pf toy_pf [45;49;50;98]%N = Some (TByte (-12)) /\ C04_lit.fits [45;49;50;98]%N /\
+  Literal.nbt_parseLiteral_unquoted [45;49;50;98] = (nbt_TagByte, 1, 8, 8, 3) /\
+  Literal.nbt_parseLiteral_unquoted [49;46;53] = (nbt_TagDouble, 2, 64, 64, 3) /\
+  Literal.nbt_parseLiteral_unquoted [55;70] = (nbt_TagFloat, 2, 32, 32, 1) /\
+  Literal.nbt_parseLiteral_unquoted [97;98;99] = (nbt_TagString, 0, 0, 0, 3) /\
+  Literal.nbt_parseLiteral_unquoted [49;101;53] = (nbt_TagString, 0, 0, 0, 3).
+Proof. repeat split; vm_compute; try reflexivity; intros; discriminate. Qed.
+
+Print Assumptions C04_scan_no_crash.
+Print Assumptions C04_scan_depth_bound.
+Print Assumptions C04_scan_error_sticky.
+Print Assumptions C04_scan_accept_no_error.
+Print Assumptions C04_scan_opcode_stack.
+Print Assumptions C04_scan_accept_balanced.
+Print Assumptions C04_scan_ws_translated.
+Print Assumptions C04_scan_top_translated.
+Print Assumptions C04_scan_bare_translated.
+Print Assumptions C04_scan_digit_translated.
+Print Assumptions C04_literal_translated.
